@@ -623,6 +623,23 @@ example : HistOKg (Dag.init 1 1 0)
   ⟨gH, ⟨gH, ⟨by decide, rfl, by intro e1 h1 e2 h2 hne; simp at h1 h2; subst h1 h2; exact absurd rfl hne⟩⟩,
    gC, gM, gW, trivial, trivial, gC, trivial, trivial, trivial, trivial, trivial, trivial⟩
 
+/-- **an edge pair the circuit reports compatible is a well-formed `insert_at` argument** (`InsertOK`, the hypothesis of
+    `HistOKg` / `edit_preserves_dagInv`): both edges exist, are keyed by the operation's registers, and are pairwise path-free -/
+theorem compatible_pair_is_well_formed {c : Dag} (h : DagInv c) {op : Op} {first second : Edge} {L : List Edge}
+    (hL : c.findIncompatibleEdges first = .ok L) (h1 : first ∈ c.edges) (h2 : second ∈ c.edges) (hcompat : second ∉ L)
+    (hq : op.qregs = [first.key, second.key]) : InsertOK c op [first, second] := by
+  obtain ⟨n1, n2⟩ := compatible_no_path (model_reachability_meets_nx_spec h first.src).1
+    (model_reachability_meets_nx_spec h first.dst).2 hL h2 hcompat
+  refine ⟨?_, by simp [hq], ?_⟩
+  · intro e he; simp at he; rcases he with rfl | rfl <;> assumption
+  · intro e1 he1 e2 he2 hne
+    simp at he1 he2
+    rcases he1 with rfl | rfl <;> rcases he2 with rfl | rfl
+    · exact absurd rfl hne
+    · exact n1
+    · exact n2
+    · exact absurd rfl hne
+
 /-- **inserting at the beginning of wires is always a well-formed call** (the time-reversed solver's pattern:
     `insert_at(gate, [first out-edge of e<i>_in, first out-edge of p<j>_in])`): existing edges that leave input nodes, one per
     quantum register of the operation and keyed by it, satisfy `InsertOK` — nothing reaches an input node, so no path condition
